@@ -65,6 +65,14 @@ def randomly(ns, nd, evenly, mc, mode='plain'):
         if mode == 'alias':
             src_names = dest_names
             src_obj = dest_obj = list(dest_names)
+        elif mode == 'entities':
+            # real mosaik.scenario.Entity objects of TWO simulator instances of one simulator whose entity ids coincide
+            # (Sim-0.D0, Sim-1.D0, Sim-0.D1, ...): the helper must keep them apart
+            from mosaik.scenario import Entity
+            src_names = [f'Src-{i % 2}.S{i // 2}' for i in range(ns)]
+            dest_names = [f'Sim-{i % 2}.D{i // 2}' for i in range(nd)]
+            src_obj = [Entity(n.split('.')[0], n.split('.')[1], 'Src', None, []) for n in src_names]
+            dest_obj = [Entity(n.split('.')[0], n.split('.')[1], 'Sim', None, []) for n in dest_names]
         elif mode == 'tuple':    # immutable sequences (the helper must not rely on mutating its arguments)
             src_obj, dest_obj = tuple(src_names), tuple(dest_names)
         elif mode == 'destiter':  # the destination set as a one-shot iterable (documented as "iterables"; the helper copies it)
@@ -95,7 +103,11 @@ def randomly(ns, nd, evenly, mc, mode='plain'):
             counts = {d: 0 for d in dest_names}
             seen = []
             what = f' (mode={mode}{tag})' if mode != 'plain' else ''
-            for (s, d, attrs, k) in w.calls:
+            name = (lambda x: x.full_id) if mode == 'entities' else (lambda x: x)
+            n_ret = len(ret)
+            ret = {name(x) for x in ret}
+            eng.check(len(ret) == n_ret, 'C18.returned', f'the returned set holds {n_ret} objects for {len(ret)} distinct entities{what}', {'fp': fp + ['dup']})
+            for (s, d, attrs, k) in [(name(c[0]), name(c[1]), c[2], c[3]) for c in w.calls]:
                 seen.append(s)
                 eng.check(d in counts, 'C18.dest', f'connected to {d!r} which is not in the destination set{what}', {'fp': fp})
                 counts[d] = counts.get(d, 0) + 1
@@ -161,6 +173,11 @@ def jobs(tier):
         for evenly, mc in ((True, 'inf'), (False, 'inf'), (False, 'sym')):
             out.append({'id': f'alias|{nd}|{int(evenly)}|{mc}', 'harness': 'vk.kernels.c18:randomly',
                         'params': {'ns': nd, 'nd': nd, 'evenly': evenly, 'mc': mc, 'mode': 'alias'}, 'budget_s': 300})
+    for ns in range(1, (3 if q else 5) + 1):
+        for nd in range(2, (3 if q else 4) + 1):
+            for evenly, mc in ((True, 'inf'), (False, 'inf'), (False, 'sym')):
+                out.append({'id': f'entities|{ns}|{nd}|{int(evenly)}|{mc}', 'harness': 'vk.kernels.c18:randomly',
+                            'params': {'ns': ns, 'nd': nd, 'evenly': evenly, 'mc': mc, 'mode': 'entities'}, 'budget_s': 300})
     for ns in range(0, (3 if q else 4) + 1):
         for nd in range(1, (2 if q else 3) + 1):
             for evenly, mc in ((True, 'inf'), (False, 'sym')):
